@@ -292,6 +292,8 @@ def check_process(rep, core):
     ret_src = origins(f, {'l': 0, 'p': []})
     direct = bool(ret_src) and all(o.kind == 'call' and call_matches(o.term, ['core::iter::traits::iterator::Iterator::collect']) and
                                    all(x.kind == 'call' and x.bb == db for x in origins(f, o.term['args'][0])) for o in ret_src)
+    if not direct:
+        direct = loop_copy_of(f, ret_src, db)
     rep.expect('R01.a', direct, 'collect-of-drain', 'the returned Vec is the collect of the drain iterator with no adaptor',
                'Core::process no longer returns the plain collect of the drained effects (an adaptor or another source is in between)')
 
@@ -345,6 +347,41 @@ def check_entry_points(rep, core):
     ok, detail = c09.bridge_pipeline(core)
     rep.expect('R01.b', ok, 'bridge-process', 'the serialised requests are the registered effects returned by Core::process_event / Core::process (%s)' % detail,
                'the bridge can serialise requests that are not the effects of a run of the core through process_event / process (%s)' % detail)
+
+
+def loop_copy_of(f, ret_src, source_bb):
+    """the loop form of `source.collect()`: the returned value is one fresh Vec, and a loop over the iterator made at source_bb pushes
+    every item into it, untouched, exactly once per iteration; nothing else changes the Vec"""
+    if not ret_src or not all(o.kind == 'call' and call_matches(o.term, ['alloc::vec::Vec::new', 'alloc::vec::Vec::with_capacity']) for o in ret_src):
+        return False
+    vbs = set(o.bb for o in ret_src)
+    if len(vbs) != 1:
+        return False
+    vb = vbs.pop()
+    touching = [(bb, t) for bb, t in f.calls() if norm(t.get('callee') or '').startswith('alloc::vec::Vec::') and t.get('args') and bb != vb and
+                any(o.kind == 'call' and o.bb == vb for o in origins(f, t['args'][0]))]
+    pushes = [(bb, t) for bb, t in touching if last_seg(t['callee']) == 'push']
+    MUT = {'push', 'insert', 'remove', 'pop', 'truncate', 'clear', 'retain', 'retain_mut', 'dedup', 'dedup_by', 'dedup_by_key', 'drain', 'swap_remove', 'extend',
+           'extend_from_slice', 'append', 'split_off', 'resize', 'sort', 'sort_by', 'sort_by_key', 'sort_unstable', 'reverse', 'swap', 'rotate_left', 'rotate_right'}
+    others = [last_seg(t['callee']) for bb, t in touching if last_seg(t['callee']) in MUT and last_seg(t['callee']) != 'push']
+    if len(pushes) != 1 or others:
+        return False
+    pb, pt = pushes[0]
+    items = origins(f, pt['args'][1])
+    if not items or not all(o.kind == 'call' and last_seg(o.term.get('callee') or '') == 'next' and o.suffix == ['as Some', '.0'] for o in items) or \
+            len(set(o.bb for o in items)) != 1:
+        return False
+    nb = items[0].bb
+    nt = f.blocks[nb]['t']
+    it_src = origins(f, nt['args'][0], extra_identity=[('core::iter::traits::collect::IntoIterator::into_iter', 0)])
+    if not it_src or not all(o.kind == 'call' and o.bb == source_bb for o in it_src):
+        return False
+    ne = none_edges_of(f, nb, nt)
+    if not ne:
+        return False
+    some_targets = [s2 for s2 in f.succ(ne[0][0]) if (ne[0][0], s2) not in ne]
+    return bool(some_targets) and f.in_cycle(nb) and not f.in_cycle(vb) and \
+        all(nb not in f.reachable([st_], removed_blocks=[pb]) and not (set(f.return_blocks()) & f.reachable([st_], removed_blocks=[pb])) for st_ in some_targets)
 
 
 def payload_sinks(fn, scrut_local, variant):
